@@ -18,7 +18,16 @@ use vcommon::Fail;
 
 pub const KEYS: [&str; 4] = ["k0", "k1", "user.id", "ключ"];
 
+/// Indices 0-11 are what the generators draw. 252-255 (recorded reproductions only, see the open finding of C11):
+/// a value nested 100 / 126 / 130 / 200 arrays deep.
 pub fn value_pool(i: u8) -> Value {
+    if i >= 252 {
+        let mut v = json!(1);
+        for _ in 0..[100, 126, 130, 200][(i - 252) as usize] {
+            v = Value::Array(vec![v]);
+        }
+        return v;
+    }
     match i % 12 {
         0 => Value::Null,
         1 => json!(true),
@@ -595,7 +604,10 @@ pub fn cookie_header_from_set_cookie(sc: &str) -> String {
 }
 
 pub fn parse_plain(plain: &str) -> Result<(String, Map), String> {
-    let v: Value = serde_json::from_str(plain).map_err(|e| format!("cookie value is not JSON: {e}"))?;
+    // (the harness reads the cookie without a depth limit: what the code under test can read back is for it to show)
+    let mut de = serde_json::Deserializer::from_str(plain);
+    de.disable_recursion_limit();
+    let v: Value = serde::Deserialize::deserialize(&mut de).map_err(|e| format!("cookie value is not JSON: {e}"))?;
     let id = v.get("0").and_then(|x| x.as_str()).ok_or("cookie value has no id")?.to_string();
     let client = match v.get("1") {
         None => Map::new(),
